@@ -124,3 +124,49 @@ func ModelMismatch(fileBacked bool, ops []Op, obs []string) (*Mismatch, int) {
 	}
 	return nil, len(ops)
 }
+
+// request sends one request line and returns one response line.
+func (m *ModelClient) request(line string) (string, error) {
+	if _, err := io.WriteString(m.in, line+"\n"); err != nil {
+		return "", err
+	}
+	resp, err := m.out.ReadString('\n')
+	if err != nil {
+		return "", fmt.Errorf("model runner died: %v", err)
+	}
+	return strings.TrimRight(resp, "\n"), nil
+}
+
+func hexFile(b []byte) string {
+	if len(b) == 0 {
+		return "e"
+	}
+	return fmt.Sprintf("%x", b)
+}
+
+// DecodeModel runs the Coq decoder (Disk.decode_store) on a file image:
+// "empty" | "noroots" | "bad" | "ok <size> <dump>".
+func DecodeModel(img []byte) string {
+	r, err := getModel().request("decode " + hexFile(img))
+	if err != nil {
+		return "model-error: " + err.Error()
+	}
+	return r
+}
+
+// ConformsModel runs Disk.conforms_v4 on a file image.
+func ConformsModel(img []byte, cmpOf map[string]int) string {
+	var parts []string
+	for n, id := range cmpOf {
+		parts = append(parts, fmt.Sprintf("%s:%d", hx([]byte(n)), id))
+	}
+	c := "-"
+	if len(parts) > 0 {
+		c = strings.Join(parts, ",")
+	}
+	r, err := getModel().request("conforms " + c + " " + hexFile(img))
+	if err != nil {
+		return "model-error: " + err.Error()
+	}
+	return r
+}
